@@ -1,5 +1,6 @@
 import Zc.Proofs.PostState
 import Zc.Proofs.Listeners
+import Zc.GenFacts.FnCache
 /-! # C05 — record cache: all lookup paths agree with an RFC 6762 §10 reference model
 
 `Cache` (`Zc/Model/Cache.lean`) is `DNSCache` as the code has it: a dict of dicts keyed by lower-cased owner
@@ -266,6 +267,83 @@ example :
     ((expire (Cache.ops id) (cacheAfter id [.datagram 1000 [t1, t2]]) 2000).toOption.map
       (fun o => (o.2.map (fun r => r.ttl), (o.1.entriesWithName id "a.local.").map (fun r => r.ttl)))) = some ([1], [2]) := by
   decide
+
+/-! ## Tie: the source of `_cache.py`, translated statement by statement on every run
+
+`Zc.GenFn.Cache` is regenerated from the *bodies* of `_remove_key` and of `DNSCache`'s methods (`tools/gen_fn.py`);
+`GenFacts/FnCache.lean` proves, function by function and under the representation invariant `CInv` (every dict is a dict;
+in every store key and value are the same record — what the D4 repair establishes; preserved by every mutator), that
+the hand-written `Cache` model computes what those bodies compute.  The record manager (`Zc.ingest`) and the purge
+(`Zc.expire`) use the cache only through `CacheOps`; four of its six operations are translated code (`resetTtl` and
+`markFlush` mutate record objects that live in both indexes: outside the translated subset, tied by the differential). -/
+section Tie
+open Zc.Py Zc.GenFn.Cache Zc.GenFacts.FnCache
+
+/-- **The cache operations the record manager model uses are the translated source** (on any generated cache that satisfies
+the representation invariant): `_async_add`, `_async_remove`, `async_get_unique`, and the iteration of `async_expire`. -/
+theorem C05_cache_ops_are_source (s : DNSCache) (h : CInv lower s) (r : Rec) :
+    (DNSCache.async_add lower s r).map (fun p => (absC p.2, p.1)) = .ok ((Cache.ops lower).add (absC s) r)
+    ∧ (DNSCache.async_remove lower s r).map absC = (Cache.ops lower).remove (absC s) r
+    ∧ s.async_get_unique lower r = (Cache.ops lower).getUnique (absC s) r
+    ∧ (PyDict.values s.cache).flatMap PyDict.keys = (Cache.ops lower).allRecs (absC s) :=
+  ⟨async_add_eq lower s r h, async_remove_eq lower s r h, async_get_unique_eq lower s r h,
+   by simp only [Cache.ops, Cache.allRecs, absC, allRecs_abs]⟩
+
+/-- **Every translated reader is the model's reader** (so `PathsAgree` speaks about the translated look-up functions) -/
+theorem C05_readers_are_source (s : DNSCache) (h : CInv lower s) (r : Rec) (name : String) (ty cls : Nat) :
+    s.get lower r = Cache.get lower (absC s) r
+    ∧ s.async_get_unique lower r = Cache.getUnique lower (absC s) r
+    ∧ s.get_by_details lower name ty cls = Cache.getByDetails lower (absC s) name ty cls
+    ∧ s.get_all_by_details lower name ty cls = Cache.getAllByDetails lower (absC s) name ty cls
+    ∧ s.async_all_by_details lower name ty cls = Cache.asyncAllByDetails lower (absC s) name ty cls
+    ∧ s.entries_with_name lower name = Cache.entriesWithName lower (absC s) name
+    ∧ s.entries_with_server lower name = Cache.entriesWithServer lower (absC s) name
+    ∧ PyDict.keys (s.async_entries_with_name lower name) = Cache.asyncEntriesWithName lower (absC s) name
+    ∧ PyDict.keys (s.async_entries_with_server lower name) = Cache.asyncEntriesWithServer lower (absC s) name
+    ∧ s.names = Cache.names (absC s) :=
+  ⟨get_eq lower s r h, async_get_unique_eq lower s r h, get_by_details_eq lower s name ty cls, get_all_by_details_eq lower s name ty cls,
+   async_all_by_details_eq lower s name ty cls, entries_with_name_eq lower s name, entries_with_server_eq lower s name,
+   async_entries_with_name_eq lower s name, async_entries_with_server_eq lower s name, names_eq s⟩
+
+/-- **C05 (purge) for the translated `async_expire`.**  On a generated cache that holds the records of a reference store `sp`
+(one record per identity), the translated purge does not raise (no `KeyError` from `_remove_key`), returns a permutation of
+exactly the records of `sp` whose TTL has fully elapsed, and leaves a cache that holds exactly the others. -/
+theorem C05_purge_exact_source (s : DNSCache) (h : CInv lower s) (sp : List Rec) (hr : Refines lower (absC s) sp)
+    (hw : Flat.WF lower sp) (now : Ms) :
+    ∃ reported s', DNSCache.async_expire lower s now = .ok (reported, s')
+      ∧ reported.Perm (sp.filter (fun e => decide (e.created + 1000 * (e.ttl : Int) ≤ now)))
+      ∧ Refines lower (absC s') (sp.filter (fun e => !(e.isExpired now))) ∧ CInv lower s' := by
+  obtain ⟨c', l, hc, hp, hr'⟩ := hr.expire hw now
+  have h1 := async_expire_eq lower s now h
+  rw [hc] at h1
+  cases h2 : DNSCache.async_expire lower s now with
+  | error e => rw [h2] at h1; cases h1.1
+  | ok p =>
+    rw [h2] at h1
+    have h3 := h1.1
+    simp only [Except.map, Except.ok.injEq, Prod.mk.injEq] at h3
+    have e1 : sp.filter (fun e => e.isExpired now) = sp.filter (fun e => decide (e.created + 1000 * (e.ttl : Int) ≤ now)) :=
+      List.filter_congr (fun x _ => by rw [Bool.eq_iff_iff, isExpired_iff]; simp)
+    exact ⟨p.1, p.2, rfl, by rw [h3.2, ← e1]; exact hp, by rw [h3.1]; exact hr', h1.2 p.1 p.2 rfl⟩
+
+/-- **Along every history of translated cache calls** (`async_add_records` / `async_remove_records` / `async_expire` in any
+order on a fresh `DNSCache`) the generated cache and the model cache raise the same exception at the same call or end in
+corresponding states, and the representation invariant holds. -/
+theorem C05_cache_history_is_source (ops : List COp) :
+    (runGen lower ops DNSCache.init).map absC = runModel lower ops {}
+    ∧ ∀ s', runGen lower ops DNSCache.init = .ok s' → CInv lower s' :=
+  run_eq lower ops DNSCache.init (cinv_init lower)
+
+/-- non-vacuity: the D4 input on the translated code — the same pointer record added twice, then a refreshed copy: one entry,
+the refreshed one, on both look-up paths -/
+example :
+    let p (c : Int) : Rec := ⟨"_x._tcp.local.", 12, 1, false, 4500, c, .ptr "a._x._tcp.local."⟩
+    (((DNSCache.async_add_records id DNSCache.init [p 0, p 0, p 1000]).toOption.map
+      (fun o => (o.1, (o.2.entries_with_name id "_x._tcp.local.").map (·.created), (o.2.get id (p 5)).map (·.created)))))
+      = some (true, [1000], some 1000) := by
+  decide
+
+end Tie
 
 end
 end Zc
